@@ -446,9 +446,7 @@ func c19Composed(c *kit.Ctx, f *kit.Func, decoder bool, T types.Type, depth int)
 	}
 	*cm = *pm
 	cm.F = f
-	for j := 0; j < 4; j++ {
-		cm.perm[j][0] = 1 - pm.perm[j][0]
-	}
+	cm.flipWords()
 	return cm
 }
 
